@@ -209,6 +209,26 @@ class Pipeline(Stage):
                 t += 1000
                 plan.append((m, args))
                 specs.append(dict(conn=None, t_us=t, sent=not m.is_event, iface=iface, id=3, name=m.name, args=args))
+                # the same message again with other values of its enum-typed arguments: 0, one past the last entry, -1 for signed
+                # ones, a union of bitfield entries (only for messages that create nothing)
+                if any(a.type == 'new_id' for a in m.args):
+                    continue
+                for variant in range(3):
+                    args2 = []
+                    changed = False
+                    for a, spec_a in zip(m.args, args):
+                        if a.type in ('int', 'uint') and a.enum is not None:
+                            ecs = enum_candidates(cands[0], a.enum, w)
+                            vals = [v for _, v in ecs[0].entries] if ecs and ecs[0].entries else [1]
+                            v = [0, max(vals) + 1, -1 if a.type == 'int' else (vals[0] | vals[-1])][variant]
+                            args2.append([spec_a[0], v])
+                            changed = True
+                        else:
+                            args2.append(list(spec_a))
+                    if changed:
+                        t += 1000
+                        plan.append((m, args2))
+                        specs.append(dict(conn=None, t_us=t, sent=not m.is_event, iface=iface, id=3, name=m.name, args=args2))
         else:
             for nm, args in (('frob', [['int', 5], ['str', 'a'], ['obj', 'wl_x', None], ['fixed', 256], ['fd', 1], ['array', 0]]), ('new', []), ('destroyed', [['uint', 1]])):
                 t += 1000
@@ -268,7 +288,8 @@ class Pipeline(Stage):
                     if a[0] in ('int', 'uint') and pa.enum is not None:
                         ecs = enum_candidates(c, pa.enum, w)
                         if ecs:
-                            exps = [str(a[1]) + ':' + '&'.join(decode(e, a[1])) for e in ecs]
+                            shown_v = a[1] & 0xffffffff if a[0] == 'uint' else a[1]
+                            exps = [str(shown_v) + ':' + '&'.join(decode(e, shown_v)) for e in ecs]
                             if val not in exps:
                                 why = 'expected %r' % exps[0]
                                 continue
